@@ -48,7 +48,7 @@ def key_of(universe, step, clause):
     return 'Sparse:%s:%s' % (':'.join(parts), clause.split('.')[0] + ('.' + clause.split('.')[1] if clause.startswith(('result', 'post')) else ''))
 
 
-def too_big(st, lim=4096):
+def too_big(st, lim=256):
     for t in st['objs'].values():
         if t['b']:
             continue
@@ -60,7 +60,7 @@ def too_big(st, lim=4096):
     return False
 
 
-def lit_too_big(a, lim=4096):
+def lit_too_big(a, lim=256):
     o = a.get('o')
     if not o or o['k'] == 'ref' or o['t']['b']:
         return False
@@ -75,6 +75,54 @@ def run_steps(universe, states, rng, n_ops, prefix, values):
         steps = []
         for _ in range(n_ops):
             op, a = sd.random_op(universe, rng, values)
+            w = sd.World(universe)
+            w.set_state(st)
+            obs = w.apply(op, a)
+            post = w.project()
+            if too_big(post):
+                continue
+            steps.append(dict(op=op, a=a, post=post, obs=obs))
+        traces.append(dict(id='%s%d' % (prefix, k), mode='fan', init=st, steps=steps))
+    return traces
+
+
+def random_state(universe, rng, values):
+    n, m = universe['ncols'], universe['nrows']
+
+    def el(b):
+        if b:
+            return rng.random() < 0.4
+        return sd.fr(rng.choice(values)) if rng.random() < 0.6 else [0, 1]
+    objs = {}
+    for name, kind in universe['names'].items():
+        b = kind == 'lvec'
+        if kind == 'arr':
+            rows = [[el(b) for _ in range(n)] for _ in range(m)]
+            if rng.random() < 0.3:
+                rows[rng.randrange(m)] = [[0, 1]] * n          # an empty row
+            objs[name] = dict(nd=2, b=b, e=rows)
+        else:
+            objs[name] = dict(nd=1, b=b, e=[el(b) for _ in range(n)])
+    return dict(objs=objs, ro={name: False for name in objs})
+
+
+def run_systematic(universe, rng, n_states, prefix, values, extra=20):
+    """Random dense states; at each: every reduction x axis x keepdims and every unary op on every object,
+    plus `extra` random operations."""
+    traces = []
+    for k in range(n_states):
+        st = random_state(universe, rng, values)
+        ops = []
+        for name, kind in universe['names'].items():
+            for f in ('any', 'all', 'sum', 'mean', 'max', 'min'):
+                for axis in (sd.NONE, 'a0', 'a1'):
+                    for keep in (False, True):
+                        ops.append(('red', dict(x=name, f=f, axis=axis, keep=keep)))
+            for f in (['invert', 'copy', 'to_array'] if kind == 'lvec' else ['neg', 'abs', 'copy', 'to_array']):
+                ops.append(('un', dict(x=name, f=f)))
+        ops += [sd.random_op(universe, rng, values) for _ in range(extra)]
+        steps = []
+        for op, a in ops:
             w = sd.World(universe)
             w.set_state(st)
             obs = w.apply(op, a)
@@ -190,6 +238,9 @@ def run(ctx):
     big = sd.UNIVERSES['big']
     all_traces.append((big, run_random_traces(big, rng, 120 if quick else 3000, 30, 'R', sd.BIGVALUES)))
     mid = sd.UNIVERSES['vwbA3']
+    negvals = sd.VALUES + [sd.Fraction(-2), sd.Fraction(-1, 2), sd.Fraction(3)]
+    all_traces.append((mid, run_systematic(mid, rng, 25 if quick else 600, 'Y', negvals)))
+    all_traces.append((big, run_systematic(big, rng, 10 if quick else 300, 'Z', sd.BIGVALUES)))
     all_traces.append((mid, run_random_traces(mid, rng, 120 if quick else 3000, 30, 'Q', sd.VALUES)))
     # 4. TLC validates every recorded step
     n_tr = 0
